@@ -55,6 +55,12 @@ def cases(tier: str, base_seed: int):  # noqa: ANN201
                 continue   # circuits need X25519 keys; token/value hashes make the other flows depend on random ECDSA bytes
             yield {"scenario": scn, "seed": base_seed + n, "curve": curve, "plan": {"mode": "none"},
                    "knobs": {} if curve == "curve25519" else {"trace_payload_hash": False}}
+    # five overlays multiplexed on one endpoint; "tunnel" = the endpoint is wrapped in a TunnelEndpoint (what ipv8_service does when an
+    # overlay asks for anonymity), under which every overlay is offered every datagram: a datagram signed for overlay A must not enter B
+    for k, ep_kind in enumerate(("tunnel", "udp")):
+        n += 1
+        yield {"scenario": "multi", "seed": base_seed + n, "knobs": {}, "curve": "curve25519", "ep_kind": ep_kind,
+               "plan": {"mode": "sample", "p": 0.15, "per": 1}}
     for occ in ((0, 1) if tier == "quick" else (0, 1, 2, 3)):
         for scn in SCN_NAMES:
             n += 1
@@ -71,6 +77,11 @@ def cases(tier: str, base_seed: int):  # noqa: ANN201
                  "timer_jitter": rng.choice([0.0, 0.001])}
         if curve != "curve25519":
             knobs["trace_payload_hash"] = False
+        if i % 12 == 11:
+            yield {"scenario": "multi", "seed": seed, "knobs": {k: v for k, v in knobs.items() if k != "trace_payload_hash"},
+                   "curve": "curve25519", "ep_kind": rng.choice(["tunnel", "tunnel", "udp"]),
+                   "plan": {"mode": "sample", "p": rng.choice([0.1, 0.3]), "per": 1}}
+            continue
         yield {"scenario": SCN_NAMES[i % len(SCN_NAMES)], "seed": seed, "knobs": knobs, "curve": curve,
                "plan": {"mode": "sample", "p": rng.choice([0.15, 0.3, 0.6]), "per": rng.choice([1, 2, 4])}}
 
@@ -132,7 +143,7 @@ def execute(case: dict) -> dict:  # noqa: C901, PLR0915
         auth, key = analyse(data)
         pk = poa.public_key.key_to_bin() if isinstance(poa, Peer) else None
         entries.append({"ov": type(ov).__name__, "fn": fn, "dec": dec, "type": (data[:22], data[22]), "auth": auth,
-                        "key": key, "peer_key": pk, "mut": state["cur"], "len": len(data)})
+                        "key": key, "peer_key": pk, "mut": state["cur"], "len": len(data), "ov_prefix": ov.get_prefix()})
     probes.on_handler_entry.append(on_entry)
 
     orig_add = Network.add_verified_peer
@@ -242,7 +253,12 @@ def execute(case: dict) -> dict:  # noqa: C901, PLR0915
                 # the synchronous part of handling a datagram WITHOUT a valid signature must leave every verified-peer entry alone
                 after = peer_state()
                 for k2, addrs in before.items():
-                    if k2 in after and after[k2] != addrs:
+                    if k2 not in after:
+                        c.violate("no_effect", "non_authentic_removed_verified_peer",
+                                  f"non-authentic datagram ({kind} pos={pos} type={typ[1]}) from {src} made the node forget verified peer "
+                                  f"..{k2[1].hex()[-16:]}")
+                        break
+                    if after[k2] != addrs:
                         c.violate("no_effect", "non_authentic_changed_verified_peer_address",
                                   f"non-authentic datagram ({kind} pos={pos} type={typ[1]}) from {src} changed the addresses of verified "
                                   f"peer ..{k2[1].hex()[-16:]} from {addrs} to {after[k2]}")
@@ -336,6 +352,13 @@ def execute(case: dict) -> dict:  # noqa: C901, PLR0915
     for e in entries:
         names.setdefault(e["type"], e["fn"])
     for e in entries:
+        if e["ov_prefix"] != e["type"][0]:
+            # the signature covers the prefix: a datagram made for overlay A (replayed or simply offered to every listener) entering a
+            # handler of overlay B attributes something to its signer that the signer never said to B
+            c.violate("authentic_only", f"handler_entered_for_other_overlays_datagram:{e['ov']}.{e['fn']}",
+                      f"{e['ov']}.{e['fn']} entered for a datagram carrying the prefix {e['type'][0].hex()[-12:]} of another overlay "
+                      f"(own prefix ..{e['ov_prefix'].hex()[-12:]})")
+            continue
         if e["type"] not in signed_types:
             continue
         tag = f"{e['ov']}.{e['fn']}"
